@@ -6,7 +6,7 @@ CFG = {
     "lean": "Aqv.Props.C08",
     "exe": "aqmodel_c08",
     "harness": "c08",
-    "gen": ["vmtable"],
+    "gen": ["vmtable", "translated"],
     "overlay": ["core/vm/c08_access.go"],
     "trivial_outputs": ["err", "invalid"],
     "timeout": {"quick": 900, "thorough": 7200},
@@ -19,16 +19,21 @@ CFG = {
             "stack arity of every byte per epoch through a tracer; jump-destination analysis on random code (direct, out-of-range / "
             "truncating destinations, and through real JUMPs); memoryGasCost, toWordSize, calcMemSize, callGas and the table's gas "
             "functions (SHA3, *COPY, MLOAD/MSTORE, LOGn, CREATE, RETURN, EXP) on uint64/256-bit boundary lattices and random values. "
+            "Whole programs (branches, loops, junk, truncated PUSH) over the modelled subset and per-op boundary lattices for PUSHn/DUPn/SWAPn/"
+            "MLOAD/MSTORE/MSTORE8/MSIZE/SHA3/CALLDATALOAD/COPY/CODECOPY/RETURNDATASIZE/COPY/JUMP/JUMPI/PC/JUMPDEST/GAS/RETURN/REVERT with "
+            "offsets and lengths around 0,31..33,63..65,2^16,2^20,2^32,2^63,2^64,2^255,2^256-1; outcome = return data, gas left, tracer "
+            "stack digest; RETURNDATACOPY with a non-empty buffer and getDataBig through accessors. "
             "Non-trivial = the real code produced a value (not an invalid-opcode / error outcome); distinct inputs counted.",
     "tie": {"core/vm/instructions.go op* (25 opcodes)": "corr (Go vs Model.EvmOps) + Spec judgement per case",
             "core/vm/gas_table.go memoryGasCost/gasSha3/gas*Copy/gasM*/makeGasLog/gasCreate/gasReturn/gasExp, gas.go callGas, common.go toWordSize/calcMemSize": "corr (overlay accessors call the real functions)",
             "core/vm/analysis.go codeBitmap/has": "corr (accessor + real JUMPs)",
+            "core/vm/interpreter.go Run loop, instructions.go makePush/makeDup/makeSwap/opMload/opMstore/opMstore8/opSha3/opCallData*/opCodeCopy/opReturnData*/opJump/opJumpi/opPc/opMsize/opGas/opReturn/opRevert, memory.go, common.go getDataBig": "corr (whole programs on the real EVM vs Model.EvmRun implExec; Spec = specExec; theorem run_refines_spec_partial)",
             "core/vm/jump_table.go five instruction sets, gas tiers, params gas constants and gas tables, fork heights": "gen (dumped from the compiled program into Aqv.Gen.VmTable; theorems re-proved against it)",
             "core/vm/interpreter.go NewInterpreter switch, params ChainConfig.GasTable/IsHF/isForked": "gen probes + corr (real NewEVM at every probed height)"},
     "assumptions": ["A1: no frame ever holds 2^55 gas, so 'gas uint64 overflow -> out of gas' is what the specification prescribes whenever the specified cost is >= 2^55 (theorems give >= 2^60 / 2^61 / 2^64 per function)",
                     "math/big (sign-magnitude And/Or/Not/Rsh case analysis transcribed from math/big/int.go), the Go runtime and Keccak are modelled, not verified (DESIGN.md 2.5)",
                     "the byte layout of analysis.go's bitvec (0x80 >> pos%8) is abstracted to a set of positions; the loop structure is kept",
-                    "code length < 2^62 in jumpdest_valid_iff"],
+                    "code length < 2^62, return-data buffer < 2^64 bytes, Keccak output 32 bytes (Keccak is a parameter of the theorems; the driver uses Aqv.Base.Keccak, validated against Go through every SHA3 case)"],
     "trusted_base": ["Model.EvmOps mirrors core/vm/instructions.go, gas_table.go, gas.go, common.go, analysis.go; Base.Big mirrors the used fragment of math/big and common/math",
                      "go/overlay/core/vm/dump_test.go + tools/gen_vm.py (T-gen extractor) and go/overlay/core/vm/c08_access.go (accessors that only forward to the real functions)"],
 }
@@ -40,10 +45,12 @@ META = {
             "(memoryGasCost: except the uint64 wrap range 2^37..2^40 bytes, witness proved); codeBitmap/has = 'JUMPDEST outside PUSH data' "
             "for every code and every 256-bit destination; the five instruction sets dumped from the compiled program equal the hand-written "
             "specification tables (valid opcodes, stack arities, constant gas tiers, flags) and NewInterpreter's switch selects the prescribed "
-            "table for every configuration and height. Every run regenerates the tables, re-proves, and runs the real EVM and the compiled "
+            "table for every configuration and height; and the whole-program theorem run_refines_spec_partial: for every code, call data, epoch "
+            "and gas budget the Go-mirroring interpreter (table read by function name, UInt64 gas, Go memory/stack/call-data bodies with "
+            "their panics) and the Yellow-Paper interpreter give the same return data, gas left, stack and halt class unless a step's "
+            "operands lie in one of the two recorded deviation sets. Every run regenerates the tables, re-proves, and runs the real EVM and the compiled "
             "model on >100k cases (exhaustive boundary lattice + random) comparing result and gas.",
     "note": GEN + " Known findings (recorded, consensus-visible, not patched): SAR(shift>=256, 0) = 2^256-1; memoryGasCost square wraps uint64 for "
-            "requests in (0x1fffffffe0, 0xffffffffe0]. Data-movement opcodes (PUSH/DUP/SWAP/MLOAD/MSTORE/CALLDATA*/CODECOPY/JUMP*) are covered by the "
-            "table theorems (validity, arity, gas tier), the memory-growth and jump-destination theorems, and by program-level correspondence; "
-            "they have no separate per-opcode result theorem.",
+            "requests in (0x1fffffffe0, 0xffffffffe0]. SSTORE/SLOAD/BALANCE/EXT*/BLOCKHASH/LOG*/CALL*/CREATE/SELFDESTRUCT bodies are outside the "
+            "modelled subset (state database needed; C06/C07/C09): both interpreters stop with `skip` there; their table rows are covered.",
 }
